@@ -1,3 +1,4 @@
+import Adlt.Ft.AutoSave
 import Adlt.Ft.Sound
 import Adlt.Ft.Complete
 /-! # C17 — embedded file transfers are reassembled bit-exactly or not at all
@@ -42,6 +43,36 @@ theorem C17_inorder_complete (serial size n buf : Nat) (keep : Bool) (pk : List 
     · left; exact h
     · right; show size = 0 + pk.flatten.length; omega
   · intro h; subst h; simp at hn; omega
+
+/-! ## automatic saving -/
+
+/-- **confinement**: the file an auto-saved transfer is written to is `<dir>/<b>` where `b` - the base name of the
+    announced name - contains no separator and is neither empty, `.` nor `..`: a direct child of the configured directory,
+    whatever the announced name (absolute, with `..`, with directory parts); a name without base name (ending in `..`)
+    is replaced by a fixed text -/
+theorem C17_save_confined (n b : Ftm.Name) (h : Ftm.baseName n = some b) :
+    '/' ∉ b ∧ b ≠ [] ∧ b ≠ ['.'] ∧ b ≠ ['.', '.'] := Ftm.baseName_confined n b h
+
+/-- **no overwrite**: automatic saving never changes or removes a file that exists already (pre-existing or saved
+    earlier under the same base name); it only ever adds one new file -/
+theorem C17_save_never_overwrites (globOk : Ftm.Name → Bool) (s : Ftm.Saved) (serial : Nat) (name : Ftm.Name) (data : List Nat) :
+    ∃ added, (Ftm.autoSave globOk s serial name data).files = s.files ++ added ∧
+      (∀ f ∈ added, s.has f.1 = false) ∧ added.length ≤ 1 := by
+  unfold Ftm.autoSave
+  split
+  · simp only []
+    split
+    · exact ⟨[], by simp, by simp, by simp⟩
+    · rename_i hh
+      refine ⟨[(Ftm.targetName serial name, data)], rfl, ?_, by simp⟩
+      intro f hf
+      simp only [List.mem_singleton] at hf
+      subst hf
+      simpa using hh
+  · exact ⟨[], by simp, by simp, by simp⟩
+
+/-- non-vacuity: `/abs/../x/f.bin` is saved as `f.bin`; a name ending in `..` has no base name -/
+example : Ftm.baseName "/abs/../x/f.bin".toList = some "f.bin".toList ∧ Ftm.baseName "dir/..".toList = none := by decide
 
 /-- non-vacuity: packages 1,1,2 of 2 (the duplicate that used to make the transfer incomplete) -/
 example : InOrder 1 [[7, 7], [8]] [(1, [7, 7]), (1, [7, 7]), (2, [8])] :=
